@@ -12,7 +12,7 @@ open DawgieVerif.Sched DawgieVerif.Generated
 theorem prune_keep_is_live (nd : Node) : SchedGen.keep nd = nd.live := by
   cases nd with
   | mk todo doing do_ status runid =>
-    cases status <;> simp [SchedGen.keep, Node.live, Node.running]
+    cases todo <;> cases doing <;> cases status <;> simp [SchedGen.keep, Node.live, Node.running]
 
 /-- hence `_prune` as regenerated is the model's `prune`, in every state -/
 theorem prune_is_model (s : St) :
